@@ -156,8 +156,8 @@ def patStaleHandle (sp : Spec) (op : Op) (st : St) : Bool :=
   match opSlot op with
   | none => false
   | some s =>
-    match getSlot st s, sGetSlot sp s with
-    | some h, some sh => entAt sp h.path != some (.file sh.fid)
+    match getSlot st s, sGetSlot sp.l s with
+    | some h, some sh => entAt sp.l h.path != some (.file sh.fid)
     | _, _ => false
 
 /-- the paths an op addresses (used to tie a pattern hit and an observed divergence together) -/
@@ -200,8 +200,8 @@ def patternsAt (st : St) (sp : Spec) (op : Op) : List Taint :=
   ++ mk 9 (patCreateOverDir st op) []
   ++ mk 10 (patFsyncAcrossRename st op) partners
   ++ mk 8 (patStaleHandle sp op st) (match opSlot op with
-      | some sl => match sGetSlot sp sl with
-        | some sh => sp.ents.filterMap fun kv => if kv.2 == .file sh.fid then some kv.1 else none
+      | some sl => match sGetSlot sp.l sl with
+        | some sh => sp.l.ents.filterMap fun kv => if kv.2 == .file sh.fid then some kv.1 else none
         | none => []
       | none => [])
 
